@@ -275,8 +275,22 @@ def run_C14(rng, tier):
         g = [Case.simple(rng.choice([E, ("Const", c)]), xs, {"regime": reg, "role": "parent"})]
         groups.append(g)
         cases += g
+    pure = []
+    for g in groups[::3]:
+        c0 = g[0]
+        ops = []
+        for o in c0.ops:
+            ops += [o, ("l", 0), ("l", 0)]
+        pure.append(Case(c0.desc, ops, dict(c0.meta, role="repeated-last")))
+    cases += pure
     run_impl(cases)
     viols = O.c14(groups)
+    for c in pure:
+        for i in range(0, len(c.obs), 3):
+            a, b1, b2 = c.obs[i], c.obs[i + 1], c.obs[i + 2]
+            if not (a.raw.split("@")[0] == b1.raw == b2.raw):
+                viols.append(O.viol("c14-last-impure", "%s: last() read again after update %d gives %s then %s, the first read gave %s" % (d_sexpr(c.desc), i // 3 + 1, b1.raw, b2.raw, a.raw.split("@")[0]), [c]))
+                break
     # f64: bit-identical pointwise recomputation
     f64groups = []
     fc = []
@@ -435,6 +449,10 @@ def run_C03(rng, tier):
             d = mk_view(rng, name)
             n = d[1]
             K = 2 * n if C03_K[name] == "2n" else n + C03_K[name]
+        if name != "Pfe" and i % 4 == 3:
+            m_ = 2 + rng.below(3)
+            d = d[:-1] + (("Sma", m_, E),)          # W over Sma(m): memory K_W + m - 1
+            K = K + m_ - 1
         sl = K + rng.below(5)
         heavy = is_heavy(d)
         _, s = gen_stream(rng, sl, grid=1 if heavy else 4)
@@ -460,7 +478,12 @@ def run_C04(rng, tier):
     k = scale(tier)
     names = ["Sma", "Ema", "Alma"]
     singles = standalone_cases(rng, names, 45 * k)
+    for i in range(12 * k):
+        d = mk_view(rng, ["EmaAlpha", "AlmaCustom"][i % 2], n=pick_n(rng, 1, 6))
+        reg, xs = stream_for(rng, d, 16)
+        singles.append(Case.simple(d, xs, {"regime": reg, "view": d[0]}))
     for n in (1, 2, 3):
+        singles.append(Case.simple(("EmaAlpha", n, F(1), E), [10, 0, 4, -2, 7], {"regime": "alpha-1", "view": "EmaAlpha"}))
         singles.append(Case.simple(("Ema", n, E), [0, 0, 0, 8, -8, 0, 4], {"regime": "zeros", "view": "Ema"}))
         singles.append(Case.simple(("Ema", n, E), [2, -2, 4, 0, 0, 1], {"regime": "zeros", "view": "Ema"}))
         singles.append(Case.simple(("Sma", n, E), [0, 2, -2, 0, 0, 5], {"regime": "zeros", "view": "Sma"}))
@@ -476,8 +499,8 @@ def run_C04(rng, tier):
         aff.append((Case.simple(d, xs, {"view": d[0], "regime": reg}), Case.simple(d, [a * x + b for x in xs], {"view": d[0], "regime": "affine"}), (a, b)))
     cases = singles + [c for p in mono for c in p[:2]] + [c for p in aff for c in p[:2]]
     run_impl(cases)
-    viols = O.c04_single(singles + [p[0] for p in mono])
-    viols += O.spec_check("C04", [c for c in singles if c.desc[0] in ("Ema", "Alma")], "the defining recursion / Gaussian-kernel weighted mean")
+    viols = O.c04_single([c for c in singles if c.desc[0] in ("Sma", "Ema", "Alma")] + [p[0] for p in mono])
+    viols += O.spec_check("C04", [c for c in singles if c.desc[0] in ("Ema", "Alma", "EmaAlpha", "AlmaCustom")], "the defining recursion / Gaussian-kernel weighted mean")
     viols += O.pointwise_rel("c04-monotone", "raising an input lowered an output", mono, lambda a, b, prm, t, c: b >= a)
     viols += O.pointwise_rel("c04-affine", "does not commute with x -> a*x+b", aff, lambda a, b, prm, t, c: b == prm[0] * a + prm[1])
     return finish("C04", "C04", cases, viols, "Sma/Ema/Alma: hull and constant reproduction on single runs (incl. zeros and sign changes), paired runs for monotonicity (one input raised) and x -> a*x+b with rational a>0, b; Ema recursion and Alma kernel as batch specs; exact rationals")
@@ -1044,7 +1067,7 @@ def run_C09(rng, tier):
                   {"long_f64_runs": len(longs), "fading_pairs": len(pairs), "stream_length": L})
 
 # ---------------------------------------------------------------------------------- C16
-C16_VIEWS = ["Sma", "Cumulative", "Alma", "Rsi", "MyRsi", "Welford", "WelfordMean", "Vst", "Vsct", "Hln", "Cti", "Net", "Roc", "Ema", "Min", "Max"]
+C16_VIEWS = ["Sma", "Cumulative", "Alma", "Rsi", "MyRsi", "Welford", "WelfordMean", "Vst", "Vsct", "Hln", "Cti", "Net", "Roc", "Ema", "Min", "Max", "Cog"]
 def run_C16(rng, tier):
     k = scale(tier)
     L = 20000 if tier == "quick" else 200000
